@@ -21,7 +21,7 @@ FLOORS = {"fam=forms": (1000, 1000), "fam=dtypes": (100, 100), "fam=mask": (500,
 def tlc_jobs(tier, seed):
     consts = dict(U={2, 4, 6}, Full2D=(tier != "quick"), Emit=True, PtLens=({2} if tier == "quick" else {2, 3}))
     return [dict(tag=tier, module="MC_C03",
-                 cfg=dict(constants=consts, invariants=["Frame", "ReadBack", "ErrIffReadErr", "PointsFrame", "PointsReadBack", "PointsErr"]),
+                 cfg=dict(constants=consts, invariants=["Frame", "ReadBack", "ErrIffReadErr", "PointsFrame", "PointsReadBack", "PointsArr", "PointsErr"]),
                  run=dict(timeout=3000))]
 
 
@@ -162,6 +162,38 @@ def _do(a, sp, i, tup, rhs):
     return None
 
 
+def _check_pointwise_read(res, tup, i, v, a_abs, codec, kind):
+    try:
+        rb = res.take(tup, indexing=i["mode"], broadcast=True)
+    except Exception as ex:  # noqa
+        return "pointwise read raised %s: %s" % (type(ex).__name__, str(ex)[:200])
+    if not isinstance(rb, A.DimArray):
+        return "pointwise read returned %s" % type(rb).__name__
+    names = a_abs["dims"]
+    exp_dims = tuple(",".join(names[d - 1] for d in sd) for sd in v["srcdims"])
+    if tuple(rb.dims) != exp_dims:
+        return "pointwise read: dims expected %s got %s" % (exp_dims, tuple(rb.dims))
+    for j, (sd, labs) in enumerate(zip(v["srcdims"], v["labs"])):
+        act = rb.axes[j].values.tolist()
+        if len(sd) == 1:
+            expl = [codec.enc(t[0], kind) for t in labs]
+        else:
+            expl = [tuple(codec.enc(h, kind) for h in t) for t in labs]
+            act = [tuple(x) if isinstance(x, (tuple, list)) else x for x in act]
+        if len(act) != len(expl) or any(x != y for x, y in zip(act, expl)):
+            return "pointwise read: labels of %r expected %s got %s" % (exp_dims[j], expl, act)
+    shape = tuple(len(l) for l in v["labs"])
+    if tuple(rb.shape) != shape:
+        return "pointwise read: shape expected %s got %s" % (shape, tuple(rb.shape))
+    expv = [A.cell_enc(c, i["rhs"]["kind"]) if c > 900 else A.cell_enc(c, a_abs["dtype"]) for c in v["cells"]]
+    actv = np.ascontiguousarray(rb.values).ravel().tolist()
+    if len(expv) != len(actv) or not all(_eq(x, y) for x, y in zip(expv, actv)):
+        return "pointwise read: cells expected %s got %s" % (expv, actv)
+    if dict(rb.attrs) != dict(res.attrs):
+        return "pointwise read: attrs expected %s got %s" % (dict(res.attrs), dict(rb.attrs))
+    return None
+
+
 def replay(scn):
     i = scn["in"]
     a_abs = i["a"]
@@ -262,8 +294,14 @@ def replay(scn):
                         what = "pointwise read-back: expected %s got %s" % (expv, actv)
                 except Exception as ex:  # noqa
                     what = "pointwise read-back raised %s: %s" % (type(ex).__name__, str(ex)[:200])
+            obs = False
+            if what is None and i["fam"] == "points" and err is None and exp.get("pta", {}).get("ok"):
+                # the whole pointwise read, axes included (spec/Arrays.tla TakePointsArr).  broadcast=True reads are outside the
+                # statement of C03 (and of C01, which is about orthogonal indexing): differences are reported as observations.
+                what = _check_pointwise_read(res, tup, i, exp["pta"]["val"], a_abs, codec, kinds[0][0])
+                obs = what is not None
             if what:
-                viol.append(dict(what=what, sig=signature(scn, sp + ("/zero" if zero else "") + ("/darhs" if darhs else "") + ("/f32" if f32 else ""), kind),
+                viol.append(dict(observation=obs, what=what, sig=signature(scn, sp + ("/zero" if zero else "") + ("/darhs" if darhs else "") + ("/f32" if f32 else ""), kind),
                                  variant="kind=%s spelling=%s zero=%s" % (kind, sp, zero)))
     return dict(violations=viol, calls=calls)
 
